@@ -32,14 +32,15 @@ def wellFormedB (v2 : Bool) (t : Tab) : Bool :=
       (isAliasUnder (t.facts.node und) || !(v2 && isStructOrIface (t.facts.node und)) || (shape v2 (t.facts.node ou)).isSome)
     | _ => true
 
-/-- the name a reference to node `c` is resolved under; fuel bounds the length of a chain of type aliases -/
-def resNameF (F : Facts) (v2 : Bool) : Nat → Nat → Option Name
+/-- how a reference to node `c` is resolved: (is a type parameter, name); fuel bounds the length of a chain of type aliases -/
+def resNameF (F : Facts) (v2 : Bool) : Nat → Nat → Option (Bool × Name)
   | 0, _ => none
   | fuel + 1, c =>
     match F.node c with
     | .alias t => resNameF F v2 fuel t
-    | .basic nm => some ⟨[], nm⟩
-    | _ => some (nameOf v2 (F.str c))
+    | .basic nm => some (false, ⟨[], nm⟩)
+    | .tparam _ => some (true, nameOf v2 (F.str c))
+    | _ => some (false, regName F v2 c)
 
 def kidEqB (F : Facts) (v2 : Bool) (fuel : Nat) (a b : Nat) : Bool :=
   match resNameF F v2 fuel a, resNameF F v2 fuel b with
